@@ -13,10 +13,9 @@ package local
 //@   records obs.exists = r
 //@   records obs.exists_path = file
 
-//@ ufunc dag_location(dir string, name string) string
+//@ sfunc dag_location(dir string, name string) string = add_yaml(upath_join(dir, name))
 //@ fn (*dagStoreImpl).fileLocation(d, name) (loc, err)
 //@   props C18 C19
-//@   trusted
 //@   modifies heap(alloc)
 //@   ensures err == nil && loc == ite(contains(name, "/"), name, dag_location(d.dir, name))
 
